@@ -6,6 +6,12 @@ RuntimeError}.  Workloads: (1) construct matrix (every operator/builtin/member x
 C++ API, the C API and (sampled) the `bloc` binary; (4) thorough: coverage-guided libFuzzer."""
 import random, os, subprocess, tempfile, shutil, re
 from vlib import *
+import vlib as _vlib
+
+def add_violation(res, sig, what, witness):
+    # this check's workloads cannot legitimately need much memory: an allocator-limit report is a violation here
+    _vlib.add_violation(res, sig, what, witness, keep_exhaustion=True)
+
 import corpus
 
 PROPERTY = "C01"
